@@ -4,7 +4,7 @@ From FlacBase Require Import Res.
 From FlacCodec Require Ast Stream Header Wf Enc Enc_proofs.
 From FlacWriters Require Import Meta Params Finalize Writers.
 From FlacWriters Require Import Params_proofs.
-From FlacE2E Require Import Bridge E2E SampleE2E.
+From FlacE2E Require Import Bridge E2E SampleE2E Success.
 Import ListNotations.
 Open Scope N_scope.
 
@@ -64,6 +64,27 @@ Theorem C01_end_to_end_samples : forall o L md5, (forall l, length (md5 l) = 16%
       firstn (N.to_nat ch * (length (concat chunks) / N.to_nat ch)) (concat chunks).
 Proof. intros. eapply e2e_sample_pcm; eauto. Qed.
 
+(* C01 for FlacSampleWriter, complete: hypotheses on the input only.  For well-formed options, a writer the
+   constructor returned, samples within the bit depth making at least one whole PCM frame, a declared total (if any)
+   equal to the samples in the whole PCM frames written, and ANY chunking of the writes:
+   the run SUCCEEDS (no error, no panic, either build profile) and the finished file decodes to exactly those samples *)
+Theorem C01_sample_writer_lossless : forall o L md5, (forall l, length (md5 l) = 16%nat) ->
+  forall p rate bps wo ch total w chunks,
+  options_wf wo ->
+  sample_new p [] wo rate bps ch total = Ok w ->
+  forallb (FlacCodec.Wf.fits bps) (concat chunks) = true ->
+  let W := N.of_nat (length (concat chunks)) / ch in
+  1 <= W -> N.of_nat (length (concat chunks)) < 2 ^ 36 ->
+  match total with Some T => T = ch * W | None => True end ->
+  exists f blocks,
+    sample_run (encB o L rate bps) md5 p w chunks = Ok f /\
+    FlacCodec.Stream.dec_stream (f_stream f) =
+      Some (conv_si (f_si f), map FlacCodec.Stream.interleave_frame blocks, FlacCodec.Stream.EndEof) /\
+    concat (map FlacCodec.Stream.interleave_frame blocks) =
+      firstn (N.to_nat ch * (length (concat chunks) / N.to_nat ch)) (concat chunks).
+Proof. exact sample_writer_lossless. Qed.
+
+Print Assumptions C01_sample_writer_lossless.
 Print Assumptions C01_written_metadata_is_read.
 Print Assumptions C01_end_to_end_samples.
 Print Assumptions C01_end_to_end_encoder.
